@@ -36,8 +36,20 @@ func (a idxArg) index(size int) int {
 	case "z":
 		return 0
 	case "o":
+		switch a.K {
+		case 3:
+			return math.MaxInt
+		case 4:
+			return math.MaxInt - size
+		}
 		return size + 1 + a.K
 	default: // "u"
+		switch a.K {
+		case 3:
+			return math.MinInt
+		case 4:
+			return math.MinInt + 1
+		}
 		return -(size + 1 + a.K)
 	}
 }
@@ -48,7 +60,17 @@ func (a idxArg) slot(size int) uint {
 		return uint(a.K % (size + 1))
 	case "e":
 		return uint(size)
-	default: // "o"
+	default: // "o": beyond the end -- just beyond, or at the far ends of the unsigned range (where a conversion to int wraps)
+		switch a.K {
+		case 3:
+			return math.MaxUint
+		case 4:
+			return 1 << 63
+		case 5:
+			return 1<<63 + 7
+		case 6:
+			return math.MaxInt
+		}
 		return uint(size + 1 + a.K)
 	}
 }
@@ -109,7 +131,7 @@ func genIdx(s core.Source, small bool, label string) *idxArg {
 	case "f", "b":
 		a.K = s.Choose(8, label+"k")
 	case "o", "u":
-		a.K = s.Choose(3, label+"k")
+		a.K = s.Choose(5, label+"k")
 	}
 	return a
 }
@@ -120,7 +142,7 @@ func genSlot(s core.Source, small bool) *idxArg {
 		a.K = s.Choose(pickInt(small, 3, 8), "slotk")
 	}
 	if a.C == "o" && !small {
-		a.K = s.Choose(3, "slotk")
+		a.K = s.Choose(7, "slotk")
 	}
 	return a
 }
@@ -687,7 +709,7 @@ func execSeq[E any](c seqCase, et elemType[E]) core.Result {
 			val := r.vals([]int{op.V})[0]
 			what = fmt.Sprintf("InsertValue(%d, %v)", slot, val)
 			p, _ := lib.Call(func() { r.list.InsertValue(slot, val) })
-			if int(slot) > size {
+			if slot > uint(size) {
 				boundary = true
 				if !p {
 					v = core.Violate("C01/InsertValue/slot-past-end-returned", "step %d: %s on size %d returned", step, what, size)
@@ -711,7 +733,7 @@ func execSeq[E any](c seqCase, et elemType[E]) core.Result {
 				r.res.Classes = append(r.res.Classes, "empty-operand")
 			}
 			p, _ := lib.Call(func() { r.list.InsertValues(slot, operand) })
-			if int(slot) > size {
+			if slot > uint(size) {
 				boundary = true
 				if !p {
 					v = core.Violate("C01/InsertValues/slot-past-end-returned", "step %d: %s on size %d returned", step, what, size)
@@ -884,6 +906,7 @@ func seqString[E any](s col.Sequential[E]) string {
 func TestC01(t *testing.T) {
 	r := core.Begin(t, "C01")
 	defer r.End()
+	core.DFS(r, core.Check[largeCase]{Name: "large-sizes", Gen: genLarge([]string{"List", "Array"}), Exec: execLarge("C01"), NoJournal: true}, 0)
 	core.Rapid(r, core.Check[seqCase]{Name: "history", Gen: genSeqCase(false, 40), Exec: execSeqCase, HangLimit: 0}, r.N(4000, 40000))
 	// every history of up to 2 (quick) / 3 (thorough) operations over a 2-value alphabet, sizes 0..3
 	core.DFS(r, core.Check[seqCase]{Name: "small-histories", Gen: genSeqCase(true, r.N(1, 2)), Exec: execSeqCase, NoJournal: true}, r.N(400000, 0))
